@@ -86,7 +86,49 @@ func runSolver(ctx context.Context, s solverSpec, file string, limit time.Durati
 }
 
 func solveOne(o *Obligation, opts SolveOpts, stats *solveStats, idx int) {
-	file := filepath.Join(opts.Dir, fmt.Sprintf("o%05d.smt2", idx))
+	if len(o.parts) == 0 {
+		solveQuery(o, opts, stats, idx)
+		return
+	}
+	// several queries: all must be unsat
+	t0 := time.Now()
+	res := "unsat"
+	var solversUsed []string
+	var outs []string
+	for pi, p := range o.parts {
+		if p == "false" {
+			continue
+		}
+		sub := *o
+		sub.parts = nil
+		sub.cond = p
+		solveQuery(&sub, opts, stats, idx*100+pi)
+		outs = append(outs, fmt.Sprintf("path %d: %s", pi, sub.Result))
+		if sub.Solver != "" {
+			solversUsed = append(solversUsed, sub.Solver)
+		}
+		if sub.Result == "sat" {
+			res = "sat"
+			o.Model, o.cond = sub.Model, p
+			break
+		}
+		if sub.Result != "unsat" {
+			if res == "unsat" {
+				res = sub.Result
+				o.cond = p
+			}
+		}
+	}
+	o.Result = res
+	o.Output = strings.Join(outs, "; ")
+	if len(solversUsed) > 0 {
+		o.Solver = solversUsed[len(solversUsed)-1]
+	}
+	o.Secs = time.Since(t0).Seconds()
+}
+
+func solveQuery(o *Obligation, opts SolveOpts, stats *solveStats, idx int) {
+	file := filepath.Join(opts.Dir, fmt.Sprintf("o%07d.smt2", idx))
 	if err := os.WriteFile(file, []byte(o.smt(false)), 0644); err != nil {
 		o.Result, o.Output = "unknown", err.Error()
 		return
@@ -184,6 +226,9 @@ func solveOne(o *Obligation, opts SolveOpts, stats *solveStats, idx int) {
 		}
 	}
 	o.Result, o.Output = "unknown", strings.Join(outs, "; ")
+	if strings.Count(o.Output, ": error") == len(solvers) {
+		o.Result = "error"
+	}
 }
 
 func firstLines(s string, n int) string {
